@@ -277,6 +277,54 @@ def run_overlap(ctx: Ctx) -> None:
     _guard(ctx, "T16.tversky-roles", "roles", fT, "tversky alpha/beta roles", roles)
 
 
+def run_definitions(ctx: Ctx) -> None:
+    """Values of the basic losses against their definitions (the other rules are relative to the 'none' output)."""
+    prog = ctx.prog
+    L = "deepali.losses.functional"
+    ctx.rule("T16.definition", "ssd_loss 'none' = (input - target)^2 and mse_loss = its mean; mae_loss / l1_loss 'none' = |input - target|; "
+                               "dice_score with a voxel weight w is (2 sum w p y + eps) / (sum w p^2 + sum w y^2 + eps) per (N, C) entry")
+
+    def th_ssd():
+        reset_relations()
+        facts = fresh_facts()
+        it = make_interp(ctx)
+        x, y, p = _inputs(facts)
+        d = x.sub(y)
+        none = it.call(prog.func(L, "ssd_loss"), x, y, reduction="none")
+        if not teq(none, d.mul(d)):
+            return False, "ssd_loss(reduction='none') is not (input - target)^2"
+        if not teq(it.call(prog.func(L, "mse_loss"), x, y), d.mul(d).mean()):
+            return False, "mse_loss is not the mean squared difference"
+        for n in ("mae_loss", "l1_loss"):
+            a = it.call(prog.func(L, n), x, y, reduction="none")
+            if not teq(a.mul(a), d.mul(d)):
+                return False, f"{n}(reduction='none') squared is not (input - target)^2"
+        return True, ""
+    _guard(ctx, "T16.definition", "ssd/mse/mae", prog.func(L, "ssd_loss"), "pointwise definitions", th_ssd)
+
+    def th_dice():
+        reset_relations()
+        facts = fresh_facts()
+        it = make_interp(ctx)
+        p, y = _binary("p"), _binary("y")
+        w = STensor.symbols("w", OSHAPE)
+        for v in w.flat():
+            facts.declare_positive(v)
+        eps = Rat.atom("eps")
+        facts.declare_positive(eps)
+        s = it.call(prog.func(L, "dice_score"), p, y, weight=w, epsilon=eps, reduction="none")
+        N, C = OSHAPE[0], OSHAPE[1]
+        for b in range(N):
+            for c in range(C):
+                pf, yf, wf = p[b, c].flat(), y[b, c].flat(), w[b, c].flat()
+                num = sum((to_rat(a) * to_rat(q) * to_rat(r) for a, q, r in zip(wf, pf, yf)), Rat.of(0)) * 2 + eps
+                den = sum((to_rat(a) * (to_rat(q) * to_rat(q) + to_rat(r) * to_rat(r)) for a, q, r in zip(wf, pf, yf)), Rat.of(0)) + eps
+                if not to_rat(s[b, c].item()).equals(num / den):
+                    return False, f"weighted dice_score[{b},{c}] is not (2 sum w p y + eps) / (sum w p^2 + sum w y^2 + eps)"
+        return True, ""
+    _guard(ctx, "T16.definition", "weighted dice", prog.func(L, "dice_score"), "weighted dice definition", th_dice)
+
+
 def run_weight_shapes(ctx: Ctx) -> None:
     prog = ctx.prog
     L = "deepali.losses.functional"
